@@ -286,6 +286,11 @@ func verifHarnessCrash() {
 	for n := jmin; n <= started; n++ {
 		cands = append(cands, stateAfter(n))
 	}
+	if r := verifParam("r_io"); r != 0 {
+		// the recovering process uses the OTHER back-end (and keeps it from here on)
+		opts.FileIOType = fio.FileIOType(r - 1)
+		verifReach("recovered-with-other-backend")
+	}
 	db2, err := Open(opts)
 	if err != nil {
 		verifNote("recovery-err", err)
